@@ -13,7 +13,7 @@ from ..cfg import CFG, ENTRY, EXIT, RAISE
 from ..core import Ctx
 from ..flow import AV
 from ..model import AnalysisError, FuncInfo, canon, dotted, norm, walk_no_nested, body_stmts, kwarg
-from .common import check_annotator_key, conditions_at, enclosing, expand_locals, prog, quant_norm, resolve_local
+from .common import check_annotator_key, conditions_at, enclosing, is_cmp, expand_locals, prog, quant_norm, resolve_local
 
 RI_FIELDS = ("_annotations", "_categories", "bound_inf", "bound_sup")
 # named friend sites outside class Continuum that may write the representation, one reason each
@@ -369,6 +369,15 @@ def rule_add(ctx: Ctx):
         okv = args == {f"{sn}.{fld}", f"{p_seg}.{attr}"}
         nid = cfg.node_of(st)
         must = nid is not None and cfg.must_pass(EXIT, {nid})
+        if not okv and norm(v) == f"{p_seg}.{attr}":
+            # the guarded spelling of the same update:  if segment.start < self.bound_inf: self.bound_inf = segment.start
+            gi = enclosing(f.node, st, (ast.If,))
+            op = "<" if fn_ == "min" else ">"
+            if gi and len(gi[-1].body) == 1 and not gi[-1].orelse and (is_cmp(gi[-1].test, f"{p_seg}.{attr}", op, f"{sn}.{fld}") or
+                                                                       is_cmp(gi[-1].test, f"{p_seg}.{attr}", op + "=", f"{sn}.{fld}")):
+                okv = True
+                nid = cfg.node_of(gi[-1])
+                must = nid is not None and cfg.must_pass(EXIT, {nid})
         ctx.check(okv and must, "R-C13-3", f, st, f"{fld} = {fn_}({fld}, segment.{attr}) on every normal exit: bounds enclose every added unit",
                   bad_detail=f"bounds update is wrong or can be skipped (expression ok={okv}, on every path={must})", key=fld)
     # (e) creation of an empty set only when the key is absent (add and add_annotator)
